@@ -50,6 +50,8 @@ void vrt_disarm(void);                 /* stop serializing; trace stays in memor
 void vrt_reset_marker(void);           /* append {"e":"Reset"} and forget ids */
 void vrt_dump(void);                   /* write trace to opts.out (append mode after the first dump) */
 void vrt_user(const char *name, int n, ...);
+void vrt_free_record(int on);        /* record events outside the serialized mode too (mutex-ordered) */
+void vrt_set_out(const char *path);
 long vrt_nevents(void);
 int  vrt_peek(int back, const char **name, long *lastarg);
 int  vrt_all_others_idle(void);
